@@ -1544,6 +1544,8 @@ impl Exit for VirtualSystem {
         sim_hook::event(self.process_id, "exit", exit_status.0 as i64, 0);
         let mut myself = self.current_process_mut();
         let parent_pid = myself.ppid;
+        // Only the low eight bits of the exit status are available to the parent.
+        let exit_status = ExitStatus(exit_status.0 & 0xFF);
         let exited = myself.set_state(ProcessState::exited(exit_status));
         drop(myself);
         if exited {
